@@ -67,7 +67,7 @@ LaeaG == <<Inv, Ellps, K("lat_0", "real", "0"), K("lon_0", "real", "0"), K("x_0"
 LccG  == <<Inv, Ellps, K("lat_1", "real", "0"), K("lat_2", "real", "NaN"), K("lat_0", "real", "NaN"),
            K("lon_0", "real", "0"), K("k_0", "real", "1"), K("x_0", "real", "0"), K("y_0", "real", "0")>>
 OmercG == <<Inv, K("variant", "flag", "-"), Ellps, K("latc", "real", "0"), K("lonc", "real", "0"),
-            K("alpha", "real", "NaN"), K("gamma_c", "real", "NaN"), K("x_0", "real", "0"), K("y_0", "real", "0"),
+            K("alpha", "real", "!"), K("gamma_c", "real", "NaN"), K("x_0", "real", "0"), K("y_0", "real", "0"),
             K("k_0", "real", "1")>>
 Aspects == <<
   [name |-> "laea", base |-> <<A("lat_0", "90"), A("lon_0", "10")>>, gamut |-> LaeaG],
@@ -154,7 +154,7 @@ Catalogue == <<
   [name |-> "omerc", base |-> <<A("lonc", "115"), A("latc", "4"), A("alpha", "53:18:56.9537"), A("gamma_c", "53:07:48.3685"),
                                A("k_0", "0.99984"), A("x_0", "590476.87"), A("y_0", "442857.65"), A("ellps", "evrstSS")>>,
    gamut |-> <<Inv, K("variant", "flag", "-"), Ellps, K("latc", "real", "0"), K("lonc", "real", "0"),
-               K("alpha", "real", "NaN"), K("gamma_c", "real", "NaN"), K("x_0", "real", "0"), K("y_0", "real", "0"),
+               K("alpha", "real", "!"), K("gamma_c", "real", "NaN"), K("x_0", "real", "0"), K("y_0", "real", "0"),
                K("k_0", "real", "1")>>],
   [name |-> "permtide", base |-> <<A("from", "mean"), A("to", "zero"), A("ellps", "GRS80")>>,
    gamut |-> <<Inv, K("k", "real", "0.3"), Ellps, K("from", "text", "!"), K("to", "text", "!")>>],
